@@ -59,6 +59,70 @@ CHECKS = {
          "DESIGN.md section 6 (C18)"),
 }
 
+
+CHECKS.update({
+ "C03": ("TLC model checking of the Encode->Decode round trip (SameAtoms/SameBonds invariants) over all SMILES token strings "
+         "up to a bound; TLC-generated allowed outcomes replayed into selfies.encoder; dataset molecules in many spellings "
+         "recorded and judged by TLC (TraceRT) with the specification's own reader and decoder",
+         "The round trip is model-checked in the specification for every token string up to the bound; the real encoder must "
+         "return one of the outcomes the specification allows; for real molecules (datasets, re-spelled) the encoder's output "
+         "is decoded by the specification's decoder machine - an oracle that shares no tables with the code - and compared "
+         "atom for atom and bond for bond with the specification's reading of the input.", "DESIGN.md section 6 (C03)"),
+ "C04": ("as C03 with SameSense (handedness from written neighbour order) and SameMarks invariants; stereo alphabets "
+         "enumerated by TLC; stereo-rich molecules re-spelled and judged by TLC trace validation",
+         "Chirality parity and cis/trans marks are compared between the specification's reading of the input and the "
+         "specification's decoding of the encoder's output, for all enumerated spellings of small stereo systems and for "
+         "thousands of re-spellings of stereo-rich molecules.", "DESIGN.md section 6 (C04)"),
+ "C05": ("TLC enumeration of aromatic token strings with a nondeterministic Kekule step (any valid pi assignment; failure "
+         "only if none exists); allowed outcome sets replayed into selfies.encoder; fused/bridged/cage systems in many atom "
+         "orders judged by TLC: the implementation's assignment is read back and verified, rejections checked by search",
+         "Order independence holds in the specification by construction; the code is shown to stay inside the allowed set "
+         "for every spelling of every small aromatic system, and its Kekule choice is verified (not trusted) on large systems "
+         "such as C60 in hundreds of atom orders.", "DESIGN.md section 6 (C05)"),
+ "C06": ("TLC model checking of StrictExact over molecules at/below/above capacities under table families, strict on and "
+         "off; vectors replayed through the public API incl. table switches within one process; TLC trace validation of "
+         "dataset molecules under the presets",
+         "Strict rejection is specified as 'iff some atom exceeds its capacity' and checked as an invariant; the code's "
+         "accept/reject decision and output are compared with the specification's for every enumerated molecule under each "
+         "table, in one process across table switches (stale verdicts), and strict=False results are compared across tables.",
+         "DESIGN.md section 6 (C06)"),
+ "C09": ("TLC liveness and two-outcome invariant of the encoder machine; enumerated token strings (ring-closure pathologies, "
+         "aromatic bonds on non-aromatic atoms, junk) and fuzz replayed into selfies.encoder under all flag combinations; "
+         "accepted fuzz judged by TLC",
+         "Totality is an outcome-kind and time-bound observation on every enumerated and fuzzed input (incl. giant and deeply "
+         "nested ones); the specification side shows termination and exactly two outcomes.", "DESIGN.md section 6 (C09)"),
+ "C10": ("TLC model checking of OutInGrammar / ReencodeFixpoint over the round-trip pipeline; constant-level agreement of the "
+         "two atom grammars over a finite atom domain; dataset molecules and index values judged by TLC trace validation",
+         "Decodability, standard spelling and the re-encoding fixpoint are invariants of the specification's pipeline and are "
+         "compared with the code on every enumerated input; the trace judge re-checks grammar membership of every emitted "
+         "symbol and the fixpoint on real molecules.", "DESIGN.md section 6 (C10)"),
+ "C11": ("TLC model checking of the API history model (SelfiesAPI: heap with object identity, live table, memo layers) with "
+         "CachesCoherent / ResultFresh invariants and negative controls; every history up to the depth bound replayed call by "
+         "call into the library; long random histories compared with a fresh interpreter; hash-seed sweep",
+         "Every sequence of API calls up to the bound (presets, valid/invalid customs, caller mutations, probe translations) "
+         "is explored in the specification and replayed into one interpreter with all observables compared after every call.",
+         "DESIGN.md section 6 (C11)"),
+ "C12": ("TLC model checking of SelfiesAPI (SetGet, RejectAtomic, NoAliasing, PresetsImmutable) + replay of every history with "
+         "caller-side mutation of every returned / passed object; wrong-type arguments",
+         "Aliasing is expressible because objects have identity in the model; the same mutations are performed on the real "
+         "returned objects and all getters compared after each step.", "DESIGN.md section 6 (C12)"),
+ "C15": ("TLC enumeration of vocabularies x strings x pad lengths x enc types (EncodingUtils) with LabelShape / "
+         "OneHotExactlyOne / InverseHolds / RaisesNotWrong invariants; every vector replayed into the four library functions",
+         "Exact comparison of return values and exception types for every enumerated combination, plus batch functions, "
+         "malformed decoder inputs and private-copy checks.", "DESIGN.md section 6 (C15)"),
+ "C17": ("decoder machine carrying attribution (creating symbol, enclosing branches, output token end indices); recorded "
+         "attribute=True calls validated by TLC against the property's clauses; encoder clause via the specification's reader "
+         "and decoder",
+         "The clauses of the property are evaluated by TLC on every recorded attribution list for all strings up to a bound "
+         "and for long multi-fragment strings; the translation must equal the attribute=False result.", "DESIGN.md section 6 (C17)"),
+ "C19": ("TLC model checking of all interleavings of the shared-cache micro-actions (Threads) with a negative control; model "
+         "schedules forced onto real threads at guarded hooks; line-level preemption of every executed line in freshly forked "
+         "interpreters; free-running stress",
+         "Exhaustive over interleavings of the shared-state accesses the model names (design), conformance of the code's "
+         "cache protocol to the model on every model schedule, and bounded-preemption exploration of the real code at line "
+         "granularity with follow-up probes that expose damaged shared state.", "DESIGN.md section 6 (C19)"),
+})
+
 checks = []
 for pid in sorted(CHECKS):
     tech, text, ref = CHECKS[pid]
@@ -78,7 +142,7 @@ try:
     commits = subprocess.check_output(["git", "-C", "/repo", "log", "--format=%h %s", "1fcf2d8..HEAD"]).decode().split("\n")
 except Exception:
     commits = []
-hook_commits = [c.split()[0] for c in commits if c and "hook" in c.lower() and not c.split(" ", 1)[1].startswith("fix:")]
+hook_commits = [c.split()[0] for c in commits if c and c.split(" ", 1)[1].startswith("verification hooks")]
 
 manifest = {
     "version": 1,
